@@ -1,1 +1,434 @@
-fn main() { eprintln!("engine not built yet"); std::process::exit(2); }
+//! Harness of the `merge` family (C15, C16).
+//!
+//! Engines (env `HX_ENGINE`):
+//!   `arrange`  — C15.  Request `arrange \t <T> \t <wire P> \t <wire T(P)>` where `T(P)` is one of the
+//!                three rearrangements of `hx_projgen::arrange`.  P and T(P) are each compiled by the
+//!                REAL compiler in a fresh child process (`one`): the iteration order of the merged
+//!                maps is the order of interning, which depends on the history of the process.
+//!                Answer: `st=<P>/<T(P)>` and per entrypoint of P
+//!                `ep=<Type.field> P=<canonical map> T=<canonical map> ord=<same|diff:class> ops=<same|diff>`.
+//!   `validate` — C16.  Request `validate \t <tag> \t <wire>` where tag is `valid`, `fault:<kind>`,
+//!                `defect:<name>`; compiled in-process; answer `ok` | `diag <kinds…>` | `panic`.
+//! Sub-command `one`: reads one wire project on stdin, compiles it with the event sink of the
+//! verification hook switched on and prints `status` + one `E` line per entrypoint.
+//! Sub-command `show`: reads request lines, prints the rendered projects (debugging aid).
+mod dump;
+
+use hx_common::*;
+use hx_projgen::arrange::*;
+use hx_projgen::compile::*;
+use hx_projgen::env::{Env, SelKind, SelPath};
+use hx_projgen::gen::*;
+use hx_projgen::model::*;
+use hx_projgen::mutate::*;
+use hx_projgen::render::render_default;
+use hx_projgen::wire::{from_wire, to_wire};
+use std::collections::BTreeMap;
+use std::io::{Read, Write};
+use std::process::{Command, Stdio};
+
+// ---------------------------------------------------------------------------------------------
+// child: one compile in a fresh process
+// ---------------------------------------------------------------------------------------------
+
+fn unhex_str(h: &str) -> String {
+    String::from_utf8_lossy(&unhex(h).unwrap_or_default()).to_string()
+}
+
+fn status_of(r: &CompileResult) -> String {
+    match r {
+        CompileResult::Ok(_) => "ok".to_string(),
+        CompileResult::Diagnostics(_) => format!("diag:{}", r.summary()),
+        CompileResult::Panic(m) => format!("panic:{}", hex(m.as_bytes())),
+    }
+}
+
+fn one() {
+    let mut input = String::new();
+    std::io::stdin().read_to_string(&mut input).unwrap();
+    let out = std::io::stdout();
+    let mut out = out.lock();
+    let Some(p) = from_wire(input.trim()) else {
+        writeln!(out, "status\tbad-wire").unwrap();
+        return;
+    };
+    isograph_schema::verif::verif_start();
+    let mut session = Session::from_project(&p);
+    let outcome = session.compile();
+    let events = isograph_schema::verif::verif_take();
+    writeln!(out, "status\t{}", status_of(&outcome.result)).unwrap();
+    if !outcome.result.is_ok() {
+        return;
+    }
+    let mut meta: Option<String> = None;
+    let mut qmap: Option<String> = None;
+    for (tag, value) in events {
+        match tag.as_str() {
+            "meta" => meta = Some(value),
+            "qmap" => qmap = Some(value),
+            "flush" => {
+                if value == "E" {
+                    if let (Some(m), Some(q)) = (&meta, &qmap) {
+                        let t: Vec<&str> = m.split_whitespace().collect();
+                        if t.len() >= 2 {
+                            let ty = unhex_str(t[0]);
+                            let field = unhex_str(t[1]);
+                            let qt = outcome.artifacts.get(&format!("{ty}/{field}/query_text.ts"));
+                            let na = outcome.artifacts.get(&format!("{ty}/{field}/normalization_ast.ts"));
+                            writeln!(
+                                out,
+                                "E\t{ty}.{field}\t{}\t{}\t{}",
+                                qt.map_or("missing".to_string(), |b| dump::fnv(b)),
+                                na.map_or("missing".to_string(), |b| dump::fnv(b)),
+                                q.trim()
+                            )
+                            .unwrap();
+                        }
+                    }
+                }
+                meta = None;
+                qmap = None;
+            }
+            _ => {}
+        }
+    }
+}
+
+struct Ep {
+    q: String,
+    n: String,
+    map: Option<dump::Map>,
+}
+
+struct Captured {
+    status: String,
+    eps: BTreeMap<String, Ep>,
+}
+
+fn run_child(wire: &str) -> Captured {
+    let exe = std::env::current_exe().expect("current_exe");
+    let mut child = Command::new(exe)
+        .arg("one")
+        .stdin(Stdio::piped())
+        .stdout(Stdio::piped())
+        .stderr(Stdio::null())
+        .spawn()
+        .expect("spawn one");
+    child.stdin.take().unwrap().write_all(wire.as_bytes()).unwrap();
+    let output = child.wait_with_output().expect("wait one");
+    let text = String::from_utf8_lossy(&output.stdout);
+    let mut cap = Captured { status: String::new(), eps: BTreeMap::new() };
+    for line in text.lines() {
+        let f: Vec<&str> = line.split('\t').collect();
+        match f[0] {
+            "status" if f.len() >= 2 => cap.status = f[1].to_string(),
+            "E" if f.len() >= 5 => {
+                cap.eps.insert(f[1].to_string(), Ep { q: f[2].to_string(), n: f[3].to_string(), map: dump::parse_wire_map(f[4]) });
+            }
+            _ => {}
+        }
+    }
+    if cap.status.is_empty() {
+        // the child died (stack overflow, abort): no status line
+        cap.status = match output.status.code() {
+            Some(c) => format!("died:exit{c}"),
+            None => "died:signal".to_string(),
+        };
+    }
+    cap
+}
+
+fn status_class(s: &str) -> &str {
+    s.split(':').next().unwrap_or(s)
+}
+
+// ---------------------------------------------------------------------------------------------
+// engine `arrange`
+// ---------------------------------------------------------------------------------------------
+
+fn gen_opts() -> GenOpts {
+    let mut o = GenOpts::default();
+    if let Ok(v) = std::env::var("HX_MERGE_SAFE") {
+        if v == "1" {
+            o = GenOpts::safe();
+        }
+    }
+    o
+}
+
+fn project_with_entrypoint(r: &mut Rng, o: &GenOpts) -> Project {
+    let mut p = generate(r, o);
+    for _ in 0..10 {
+        if p.decls.iter().any(|(_, d)| d.is_entrypoint()) {
+            break;
+        }
+        p = generate(r, o);
+    }
+    p
+}
+
+fn gen_arrange(r: &mut Rng, i: u64) -> Vec<String> {
+    let o = gen_opts();
+    let p = project_with_entrypoint(r, &o);
+    let (name, q) = match i % 3 {
+        0 => ("perm", permute_selections(r, &p)),
+        1 => match duplicate_under_alias(r, &p) {
+            Some(q) => ("dup", q),
+            None => ("perm", permute_selections(r, &p)),
+        },
+        _ => match extract_client_field(r, &p) {
+            Some(q) => ("extract", q),
+            None => ("perm", permute_selections(r, &p)),
+        },
+    };
+    vec![format!("arrange\t{name}\t{}\t{}", to_wire(&p), to_wire(&q))]
+}
+
+fn run_arrange(f: &[&str]) -> String {
+    if f.len() < 4 {
+        return "bad-op".to_string();
+    }
+    let a = run_child(f[2]);
+    let b = run_child(f[3]);
+    let mut out = vec![format!("st={}/{}", status_class(&a.status), status_class(&b.status))];
+    if a.status != "ok" || b.status != "ok" {
+        return out.join("\t");
+    }
+    for (name, ea) in &a.eps {
+        out.push(format!("ep={name}"));
+        let Some(ma) = &ea.map else {
+            out.push("P=unparsed".to_string());
+            continue;
+        };
+        let ca = dump::map_text(ma, true);
+        out.push(format!("P={ca}"));
+        match b.eps.get(name) {
+            None => {
+                out.push("T=missing".to_string());
+                out.push("ord=same".to_string());
+                out.push("ops=diff".to_string());
+            }
+            Some(eb) => {
+                let Some(mb) = &eb.map else {
+                    out.push("T=unparsed".to_string());
+                    continue;
+                };
+                let cb = dump::map_text(mb, true);
+                out.push(format!("T={cb}"));
+                let ord = if ca != cb || dump::map_text(ma, false) == dump::map_text(mb, false) {
+                    "same".to_string()
+                } else {
+                    format!("diff:{}", dump::order_difference_class(ma, mb))
+                };
+                out.push(format!("ord={ord}"));
+                out.push(format!("ops={}", if ea.q == eb.q && ea.n == eb.n { "same" } else { "diff" }));
+            }
+        }
+    }
+    out.join("\t")
+}
+
+// ---------------------------------------------------------------------------------------------
+// engine `validate`
+// ---------------------------------------------------------------------------------------------
+
+struct Site {
+    path: SelPath,
+    sel: Selection,
+    target: hx_projgen::env::Selectable,
+}
+
+fn sites(p: &Project) -> Vec<Site> {
+    let env = Env::new(p);
+    let mut out = vec![];
+    env.walk(|path, _ty, sel, found| {
+        if let Some(t) = found {
+            out.push(Site { path: path.clone(), sel: sel.clone(), target: t.clone() });
+        }
+    });
+    out
+}
+
+/// A VALID program the current compiler rejects (projgen finding 1): a variable whose type is
+/// identical to the type of the argument it is passed to, where that type is a nullable list.
+fn defect_nullable_list_variable(r: &mut Rng, p: &Project) -> Option<Project> {
+    let ss = sites(p);
+    let mut cands: Vec<(usize, VarDef)> = vec![];
+    for (i, s) in ss.iter().enumerate() {
+        if !matches!(s.target.kind, SelKind::ServerScalar | SelKind::ServerObject) {
+            continue;
+        }
+        if s.sel.kids().is_some() != s.target.kind.is_linked() {
+            continue;
+        }
+        for def in &s.target.args {
+            let top_nullable_list = matches!(def.ty, TypeRef::List(_));
+            let given = s.sel.head().args.iter().find(|(n, _)| *n == def.name);
+            let replaceable = match given {
+                None => true,
+                Some((_, Value::Null)) => true,
+                _ => false,
+            };
+            if top_nullable_list && replaceable {
+                cands.push((i, def.clone()));
+            }
+        }
+    }
+    if cands.is_empty() {
+        return None;
+    }
+    let (i, def) = r.pick(&cands).clone();
+    let mut q = p.clone();
+    let s = &ss[i];
+    let head = s.path.get_mut(&mut q)?.head_mut();
+    head.args.retain(|(n, _)| *n != def.name);
+    head.args.push((def.name.clone(), Value::var("zz_nlv")));
+    q.decls[s.path.decl].1.vars_mut()?.push(VarDef { name: "zz_nlv".to_string(), ty: def.ty.clone(), default: None });
+    Some(q)
+}
+
+/// An argument named `id` that the selected field does not declare
+/// (`validate_no_extraneous_arguments` skips every argument called `id`).
+fn defect_undefined_argument_id(r: &mut Rng, p: &Project) -> Option<Project> {
+    let ss = sites(p);
+    let cands: Vec<&Site> = ss
+        .iter()
+        .filter(|s| {
+            matches!(s.target.kind, SelKind::ServerScalar | SelKind::ServerObject | SelKind::ClientField | SelKind::ClientPointer)
+                && s.sel.kids().is_some() == s.target.kind.is_linked()
+                && !s.target.args.iter().any(|a| a.name == "id")
+                && !s.sel.head().args.iter().any(|(n, _)| n == "id")
+        })
+        .collect();
+    if cands.is_empty() {
+        return None;
+    }
+    let s = *r.pick(&cands);
+    let mut q = p.clone();
+    s.path.get_mut(&mut q)?.head_mut().args.push(("id".to_string(), Value::Int(1)));
+    Some(q)
+}
+
+const DEFECTS: &[&str] = &["missing-required-argument-linked", "nullable-list-variable", "undefined-argument-id"];
+
+fn gen_validate(r: &mut Rng, i: u64) -> Vec<String> {
+    let o = gen_opts();
+    // 1 in 4 unmutated; 1 in 16 from the known-defect streams; the rest single-fault mutants, the
+    // kind chosen round-robin so that every kind is hit equally often
+    let slot = i % 16;
+    if slot % 4 == 0 && slot != 0 {
+        let p = generate(r, &o);
+        return vec![format!("validate\tvalid\t{}", to_wire(&p))];
+    }
+    if slot == 0 {
+        let name = DEFECTS[((i / 16) % DEFECTS.len() as u64) as usize];
+        for _ in 0..40 {
+            let p = generate(r, &o);
+            let q = match name {
+                "missing-required-argument-linked" => mutate_fault(r, &p, FaultKind::MissingRequiredArgumentLinked),
+                "nullable-list-variable" => defect_nullable_list_variable(r, &p),
+                _ => defect_undefined_argument_id(r, &p),
+            };
+            if let Some(q) = q {
+                return vec![format!("validate\tdefect:{name}\t{}", to_wire(&q))];
+            }
+        }
+        let p = generate(r, &o);
+        return vec![format!("validate\tvalid\t{}", to_wire(&p))];
+    }
+    // mutant slots: 1,2,3,5,6,7,9,10,11,13,14,15 → 12 per 16
+    let k = (i / 16) * 12 + [0, 0, 1, 2, 0, 3, 4, 5, 0, 6, 7, 8, 0, 9, 10, 11][slot as usize];
+    let kind = FaultKind::ALL[(k % FaultKind::ALL.len() as u64) as usize];
+    for _ in 0..40 {
+        let p = generate(r, &o);
+        if let Some(q) = mutate_fault(r, &p, kind) {
+            return vec![format!("validate\tfault:{}\t{}", kind.name(), to_wire(&q))];
+        }
+    }
+    let p = generate(r, &o);
+    vec![format!("validate\tvalid\t{}", to_wire(&p))]
+}
+
+fn run_validate(f: &[&str]) -> String {
+    if f.len() < 3 {
+        return "bad-op".to_string();
+    }
+    let Some(p) = from_wire(f[2]) else { return "bad-wire".to_string() };
+    let out = compile_project(&p);
+    match &out.result {
+        CompileResult::Ok(_) => "ok".to_string(),
+        CompileResult::Panic(_) => "panic".to_string(),
+        CompileResult::Diagnostics(ds) => {
+            let mut k: Vec<&str> = ds.iter().map(|d| d.kind.as_str()).collect();
+            k.sort();
+            k.dedup();
+            format!("diag\t{}", k.join("\t"))
+        }
+    }
+}
+
+// ---------------------------------------------------------------------------------------------
+
+fn show() {
+    let mut input = String::new();
+    std::io::stdin().read_to_string(&mut input).unwrap();
+    for line in input.lines() {
+        let f: Vec<&str> = line.split('\t').collect();
+        for w in f.iter().filter(|x| x.starts_with("P ")) {
+            match from_wire(w) {
+                None => println!("<bad wire>"),
+                Some(p) => {
+                    println!("==================== project");
+                    for (path, bytes) in render_default(&p) {
+                        println!("--- {}\n{}", path.display(), String::from_utf8_lossy(&bytes));
+                    }
+                    let out = compile_project(&p);
+                    println!("--- result: {}", out.result.summary());
+                    if let CompileResult::Diagnostics(ds) = &out.result {
+                        for d in ds {
+                            println!("    [{}] {}", d.kind, d.message);
+                        }
+                    }
+                    if let CompileResult::Panic(m) = &out.result {
+                        println!("    panic: {m}");
+                    }
+                    if std::env::var("SHOW_OPS").is_ok() {
+                        for (k, v) in &out.artifacts {
+                            if k.ends_with("query_text.ts") && !k.contains("__refetch__") {
+                                println!("--- {k}\n{}", String::from_utf8_lossy(v));
+                            }
+                        }
+                    }
+                }
+            }
+        }
+    }
+}
+
+fn main() {
+    let args: Vec<String> = std::env::args().collect();
+    match args.get(1).map(|s| s.as_str()) {
+        Some("one") => {
+            quiet_panics();
+            one();
+            return;
+        }
+        Some("show") => {
+            show();
+            return;
+        }
+        _ => {}
+    }
+    let engine = std::env::var("HX_ENGINE").unwrap_or_else(|_| "arrange".to_string());
+    main_loop(
+        &|r, i| match engine.as_str() {
+            "validate" => gen_validate(r, i),
+            _ => gen_arrange(r, i),
+        },
+        &mut |f| match f[0] {
+            "arrange" => run_arrange(f),
+            "validate" => run_validate(f),
+            _ => "bad-op".to_string(),
+        },
+    );
+}
